@@ -106,6 +106,18 @@ impl ParsedDate {
             ));
         }
 
+        // Fixed-width, digits-only fields: integer parsing alone would also accept a sign
+        // ("+2025") and unpadded fields ("2025-6-1")
+        let well_formed = parts
+            .iter()
+            .zip([4, 2, 2])
+            .all(|(part, width)| part.len() == width && part.bytes().all(|b| b.is_ascii_digit()));
+        if !well_formed {
+            return Err(format!(
+                "Invalid date format: '{date_str}'. Expected YYYY-MM-DD"
+            ));
+        }
+
         let year: u16 = parts[0]
             .parse()
             .map_err(|_| format!("Invalid year in date: '{date_str}'. Expected YYYY-MM-DD"))?;
@@ -128,6 +140,13 @@ impl ParsedDate {
         if !(1..=31).contains(&day) {
             return Err(format!(
                 "Invalid day {day} in date: '{date_str}'. Day must be 1-31"
+            ));
+        }
+
+        let month_days = days_in_month(year, month);
+        if day > month_days {
+            return Err(format!(
+                "Invalid day {day} in date: '{date_str}'. Month {month} of {year} has {month_days} days"
             ));
         }
 
@@ -160,6 +179,21 @@ impl ParsedDate {
             month: month as u8,
             day: day as u8,
         }
+    }
+}
+
+/// Number of days of a month (1-12) in the proleptic Gregorian calendar.
+const fn days_in_month(year: u16, month: u8) -> u8 {
+    match month {
+        4 | 6 | 9 | 11 => 30,
+        2 => {
+            if year % 4 == 0 && (year % 100 != 0 || year % 400 == 0) {
+                29
+            } else {
+                28
+            }
+        }
+        _ => 31,
     }
 }
 
